@@ -258,6 +258,12 @@ func init() {
 		sc2.Alphabet = concat(plainAlphabet(ob), st)
 		sc2.Leaf = leaf
 		scs = append(scs, sc2)
+		scs = append(scs, &engine.Scenario{
+			Name: "C19-stats-graph", Cfgs: cfgs([]int{1}, []int{0}, one, []ct.Comp{ct.P, ct.Q, ct.T9}), Slots: 1,
+			Oracle:   drv.Oracle{Stats: true, Lock: true},
+			Alphabet: concat(graphAlphabet([]ct.Comp{ct.P, ct.Q, ct.T9}, 3), func(m *model.Model) []model.Op { return []model.Op{{K: model.OpStats}} }),
+			Depth:    d, Leaf: leaf,
+		})
 		return &Check{ID: "C19", Scenarios: scs,
 			Rule: "all histories over the relation and batch alphabets with Stats() as an ordinary operation at every position; after every history the Stats invariants (entity counts, archetype/table sizes vs model population, capacity and memory products, distinct archetype component sets, filters/observers/locked) and equality of the incrementally updated statistics with those of a twin world that replays the history and calls Stats once; non-trivial = >=1 alive entity"}
 	}
